@@ -194,7 +194,9 @@ Print Assumptions c18_decimal_roundtrip.
    (hazard), and at every return of Synchronize (one synclog entry each: saves issued so far, saves
    completed so far, directory) the completed saves are exactly the issued ones and the settings
    file holds byte for byte the most recent one - so it loads as that store (c18_roundtrip).
-   Safety only: that Synchronize eventually returns under a fair schedule is not proved
+   A save is not atomic in the machine: S makes one system call per step, so schedules in which M
+   issues further SavePreferences (or starts Synchronize) while a save is part-way through are all
+   covered.  Safety only: that Synchronize eventually returns under a fair schedule is not proved
    (Example c18_sync_not_vacuous shows a completing schedule). *)
 Theorem c18_sync : forall (p : list mop) (d : fs) (sched : list choice),
   let s := run true sched (init p d) in
@@ -210,20 +212,31 @@ Print Assumptions c18_sync.
 Example c18_sync_not_vacuous :
   let m := [([107], [118])] in
   let d0 := {| f_conf := None; f_tmp := None |} in
-  let s := run true (old_sync_schedule ++ [CSaver; CSaver; CSaver; CSaver; CSaver; CSaver; CSaver; CMain; CMain; CMain; CMain])
+  let s := run true (old_sync_schedule ++ repeat CSaver 11 ++ repeat CMain 4)
                (init [MSave m; MSync] d0) in
   exists dk, synclog s = [([m], [m], dk)] /\ f_conf dk = Some (save_bytes m) /\ mpc s = MIdle /\ prog s = [].
 Proof. exact fixed_sync_completes. Qed.
 
+(* The schedule space includes a second SavePreferences overlapping a save in progress. *)
+Example c18_sync_overlap_in_schedule_space :
+  let a := [([107], [49])] in
+  let b := [([107], [50])] in
+  let d0 := {| f_conf := None; f_tmp := None |} in
+  let s1 := run true [CMain; CSaver; CSaver; CSaver; CMain] (init [MSave a; MSave b; MSync] d0) in
+  let s2 := run true (repeat CMain 3 ++ repeat CSaver 16 ++ repeat CMain 3) s1 in
+  (exists rest, spc s1 = SSaving a rest /\ length rest = 3%nat /\ issued s1 = [a; b] /\ completed s1 = []) /\
+  exists dk, synclog s2 = [([a; b], [a; b], dk)] /\ f_conf dk = Some (save_bytes b) /\ prog s2 = [].
+Proof. exact overlap_schedule_example. Qed.
+
 (* Before fix 04: one spurious wake-up and Synchronize returns with the save issued before it not
-   even started ([m] issued, [] completed, directory untouched); three saver steps later the saver
+   even started ([m] issued, [] completed, directory untouched); eight saver steps later (swap, the save's calls, its return) the saver
    locks the destroyed mutex. *)
 Theorem c18_sync_refuted_before_fix :
   let m := [([107], [118])] in
   let d0 := {| f_conf := None; f_tmp := None |} in
   let s := run false old_sync_schedule (init [MSave m; MSync] d0) in
   synclog s = [([m], [], d0)] /\ hazard s = false /\
-  hazard (run false [CSaver; CSaver; CSaver] s) = true.
+  hazard (run false (repeat CSaver 8) s) = true.
 Proof. exact old_sync_returns_early. Qed.
 Print Assumptions c18_sync_refuted_before_fix.
 
